@@ -63,6 +63,7 @@ func OpenPoller() (poller *Poller, err error) {
 		poller = nil
 		return
 	}
+	vhook.Sys("p.open", poller, poller.fd, poller.efd, nil)
 	poller.asyncTaskQueue = queue.NewLockFreeQueue()
 	poller.urgentAsyncTaskQueue = queue.NewLockFreeQueue()
 	poller.highPriorityEventsThreshold = MaxPollEventsCap
@@ -71,6 +72,7 @@ func OpenPoller() (poller *Poller, err error) {
 
 // Close closes the poller.
 func (p *Poller) Close() error {
+	vhook.Sys("p.close", p, p.fd, p.efd, nil)
 	_ = unix.Close(p.efd)
 	return os.NewSyscallError("close", unix.Close(p.fd))
 }
